@@ -230,6 +230,13 @@ def oracle(doc, sp, text, info, with_tools=None):
                 if w3.get("status") == "success":
                     t3 = open(path, encoding="utf-8", newline="").read()
                     fails += _cmp("write-normalize", (wf[0], wf[1], wf[2] + (("assign", "ZZ_OTHER", "atom"),)), wz, t3)
+            # the same text handed over inside one outer markdown code fence (W_MARKDOWN_UNWRAP): what is inside the zones of
+            # the payload is still literal (only when the text has no frontmatter: the wrapper is for whole payloads)
+            if not text.startswith("---") and not text.startswith("OCTAVE::"):
+                pw = os.path.join(root, "wrapped.oct.md")
+                ww = tools.write(target_path=pw, content="```octave\n" + text.rstrip("\n") + "\n```\n", lenient=lenient)
+                if ww.get("status") == "success" and any(c.get("code") == "W_MARKDOWN_UNWRAP" for c in (ww.get("corrections") or [])):
+                    fails += _cmp("write-markdown-wrapped", wf, wz, open(pw, encoding="utf-8", newline="").read())
             # CLI on the written file: normalize (stdout and -o) and seal -o
             if os.path.exists(path) and w.get("status") == "success":
                 tfile = open(path, encoding="utf-8", newline="").read()
